@@ -17,8 +17,8 @@ LEVEL = 'model_checking'
 META = dict(
     functions=['scared.analysis.base:BaseAttack._set_convergence/_compute_batch_size/_batch_loop_compute/_final_compute/_compute_convergence_traces/compute_results', 'scared.analysis.base:_BaseAnalysis.run'],
     bounds=dict(quick='step lemma: one _batch_loop_compute / _final_compute from SYMBOLIC integer state (first point p0, processed traces q, convergence step; all values); '
-                      'run level: real CPAAttack and SNRAttack runs on seeded integer traces, N in {7, 10, 16}, convergence_step in {2,3,5,7,11,20}, container batch size in {2,3,4,16}, one and two run() calls',
-                thorough='N in {7, 10, 13, 16, 24, 32}'),
+                      'run level: real CPAAttack and SNRAttack runs on seeded integer traces, N in {7, 10, 16}, convergence_step in {2,3,5,7,11,20}, container batch size in {2,3,4,16}, one and two run() calls; an SNRAttack with two classes (all populated from the first point) on 10 traces; a CPAAttack with convergence_step 1 on 70 traces (70 columns)',
+                thorough='N in {7, 10, 13, 16, 24, 32}; two-class SNR runs on 10 / 16 / 24 traces; step 1 on 70 and 130 traces'),
     assumptions=['step lemma: compute() is replaced by a stub returning fresh symbolic results (the convergence bookkeeping does not look inside)', 'run level: column i is matched against the scores of a fresh attack on every prefix (numerical equality, 1e-9)',
                  'spacing is required between regular points; the remainder column appended at the end of a run is exempt on both sides'],
     outside=['trace sets above 24 traces at run level (the step lemma covers all counter values)'],
@@ -35,6 +35,10 @@ def jobs(tier, seed):
     for cls in ('CPAAttack', 'SNRAttack'):
         for n in ((7, 10, 16) if tier == 'quick' else (7, 10, 13, 16, 24, 32)):
             js.append(dict(name=f'run-{cls}-n{n}', kind='run', cls=cls, n=n, seed=seed))
+    # every class populated from the first convergence point on (Monobit model, classes [0, 1])
+    js += [dict(name=f'run-SNRAttack-2classes-n{n}', kind='run', cls='SNRAttack', n=n, seed=seed, two=True) for n in ((10,) if tier == 'quick' else (10, 16, 24))]
+    # long convergence histories (more columns than any growth chunk of the column buffer)
+    js += [dict(name=f'run-CPAAttack-n{n}-step1', kind='run', cls='CPAAttack', n=n, seed=seed, steps=[1], batches=[16]) for n in ((70,) if tier == 'quick' else (70, 130))]
     return js
 
 
@@ -136,7 +140,7 @@ def job_run(job, res):
     cls, n = job['cls'], job['n']
     cont = C02._m['container']
     x, d = data_for(n, job['seed'])
-    mk = lambda step=None: C02.make_analysis(cls, convergence_step=step)  # noqa: E731
+    mk = lambda step=None: C02.make_analysis(cls, convergence_step=step, two_classes=bool(job.get('two')))  # noqa: E731
     CTX.reset()
     L.CLOCK.reset(mode='concrete')       # run level: concrete data, kernel choice by a deterministic clock
     import warnings
@@ -148,7 +152,7 @@ def job_run(job, res):
                 prefix[c] = S._w(scores_on_prefix(mk, S.const(x), S.const(d), c)).typed()
             except Exception:
                 prefix[c] = None
-    for step, bs in itertools.product((2, 3, 5, 7, 11, 20), (2, 3, 4, 16)):
+    for step, bs in itertools.product(job.get('steps') or (2, 3, 5, 7, 11, 20), job.get('batches') or (2, 3, 4, 16)):
         for runs in ([n], [n // 2, n - n // 2]):
             cont.set_batch_size(bs)
             an, sf, model = mk(step)
@@ -184,7 +188,7 @@ def job_run(job, res):
                 if len(res['samples']) < 3:
                     res['samples'].append(dict(obligation=f'{cls}: N={n}, convergence_step={step}, container batch {bs}, runs {runs}: columns at {pts} (remainder columns {sorted(finals)})', verdict='held'))
             else:
-                res['failures'].append(dict(kind='run', cls=cls, n=n, step=step, bs=bs, runs=runs, seed=job['seed'], what=f'{cls}: N={n}, convergence_step={step}, batch {bs}, runs {runs}: {probs} (points {pts})',
+                res['failures'].append(dict(kind='run', cls=cls, n=n, step=step, bs=bs, runs=runs, seed=job['seed'], two=bool(job.get('two')), what=f'{cls}: N={n}, convergence_step={step}, batch {bs}, runs {runs}: {probs} (points {pts})',
                                             key=dict(kind='run', cls=cls, problem=probs[0][:40])))
 
 
@@ -210,16 +214,17 @@ def replay(w):
             for i, g in enumerate(guesses):
                 out[:, i, :] = np.bitwise_xor(data, g)
             return out
-        kw = dict(selection_function=sf, model=scared.Value(), discriminant=scared.maxabs, precision='float64', convergence_step=st)
+        model = scared.Monobit(0) if w.get('two') else scared.Value()
+        kw = dict(selection_function=sf, model=model, discriminant=scared.maxabs, precision='float64', convergence_step=st)
         if cls.startswith('SNR'):
-            kw['partitions'] = list(range(8))
+            kw['partitions'] = [0, 1] if w.get('two') else list(range(8))
         return getattr(scared, cls)(**kw), sf
     prefix = {}
     with np.errstate(all='ignore'):
         for c in range(1, n + 1):
             ref, sf = mk()
             try:
-                ref.update(traces=x[:c], data=scared.Value()(sf(data=d[:c])))
+                ref.update(traces=x[:c], data=(scared.Monobit(0) if w.get('two') else scared.Value())(sf(data=d[:c])))
                 prefix[c] = scared.maxabs(ref.compute())
             except Exception:
                 prefix[c] = None
